@@ -208,6 +208,22 @@ func renderWithOpts(src string, trim, lstrip bool, viaSet bool) outcome {
 	return execute(tpl, pongo2.Context{"v": "V", "z": "Z", "c": "C", "x": "X"})
 }
 
+// renderAfterSwitch: the options are what they are when the template is executed (FragOutput is a function of the options
+// of that execution): the same compiled template is first executed under the opposite settings, then under the requested ones.
+func renderAfterSwitch(src string, trim, lstrip bool) outcome {
+	set := pongo2.NewSet("doc", newMemLoader("doc", nil))
+	tpl, o := compileString(set, src)
+	if o.class() != "ok" {
+		o.Err = "compile: " + o.Err
+		return o
+	}
+	ctx := pongo2.Context{"v": "V", "z": "Z", "c": "C", "x": "X"}
+	tpl.Options.TrimBlocks, tpl.Options.LStripBlocks = !trim, !lstrip
+	execute(tpl, ctx)
+	tpl.Options.TrimBlocks, tpl.Options.LStripBlocks = trim, lstrip
+	return execute(tpl, ctx)
+}
+
 func cmdDocReplay(args []string) {
 	rep := newReport("doc-replay")
 	counts := map[string]int{}
@@ -233,6 +249,14 @@ func cmdDocReplay(args []string) {
 			rep.viol(fmt.Sprintf("document[%s]: source %q TrimBlocks=%v LStripBlocks=%v rendered %q (%s), specification %q",
 				kind, src, v.Opts.Trim, v.Opts.Lstrip, o.Out, o.Err+o.Panic, want),
 				map[string]interface{}{"kind": kind, "vector": raw, "cmd": "doc-replay"})
+		}
+		if n%3 == 0 {
+			if o3 := renderAfterSwitch(src, v.Opts.Trim, v.Opts.Lstrip); o3.class() != "ok" || o3.Out != want {
+				counts[kind]++
+				rep.viol(fmt.Sprintf("document[%s]: source %q executed under TrimBlocks=%v LStripBlocks=%v after an execution of the same template under the opposite settings rendered %q (%s), specification %q",
+					kind, src, v.Opts.Trim, v.Opts.Lstrip, o3.Out, o3.Err+o3.Panic, want),
+					map[string]interface{}{"kind": kind, "vector": raw, "cmd": "doc-replay"})
+			}
 		}
 		// the hand-stripped source, options off, must give the same output
 		o2 := renderWithOpts(stripped, false, false, false)
